@@ -44,6 +44,13 @@ var propDefs = map[string]*PropDef{
 		},
 		Assume: []string{"loaders are deterministic: Abs and the success of Get are uninterpreted functions of (loader, arguments); what a loader does with '..' is the loader's business", "path algebra (filepath.Join/Dir/IsAbs) is uninterpreted"},
 	},
+	"C14": {
+		ID: "C14", Kinds: []string{"opaque@exec", "callers"}, Funcs: "all", Floor: 15,
+		Unmech: []string{
+			"'same bytes, same failures' follows from: the four entry points call the same execute with the same template and context (proved at the call sites), execution never inspects its writer (proved: no type assertion on a writer in execution code), and execution is a function of template and context (C04); the unbuffered output on failure is then a prefix of the successful one",
+		},
+		Assume: []string{"bytes.Buffer.WriteTo delivers the buffer with one Write call and returns that call's error"},
+	},
 	"C04": {
 		ID: "C04", Kinds: []string{"frame"}, Funcs: "exec", Floor: 100,
 		Unmech: []string{
